@@ -880,16 +880,33 @@ class GromacsRunner:
                                         self.ino = new_ino
                                 if data is None:
                                     # Data is not ready, just wait:
+                                    if self._frame_abandoned():
+                                        break
                                     sleep(self.SLEEP)
                                 else:
                                     self.bytes_read += new_bytes
                                     yield data
                             else:
                                 # Data is not ready, just wait:
+                                if self._frame_abandoned():
+                                    break
                                 sleep(self.SLEEP)
                 else:
                     # Header was not ready, just wait before trying again.
                     sleep(self.SLEEP)
+
+    def _frame_abandoned(self) -> bool:
+        """Check if GROMACS stopped before completing the current frame.
+
+        Raises (via check_poll) if GROMACS failed.
+        """
+        if self.check_poll() is None:
+            return False
+        size = os.path.getsize(self.trr_file)
+        if size >= self.bytes_read + self.data_size:
+            return False
+        self.stop_read = True
+        return True
 
     def close(self) -> None:
         """Close the file, in case that is explicitly needed."""
